@@ -21,6 +21,8 @@ ASSUMPTIONS = ["exec stub as described", "_start_patches/_stop_patches run untra
                "result_proxy_class = None", "harness undoes leaked patches at the end of each path",
                "internal-fault stub: pedal.sandbox.sandbox.runtime_error raises RuntimeError when the fault flag is set"]
 
+CANARIES = {'harness/C05_restore.py': 'stub_canary()'}   # harness file -> native call that must return True, else its stubs are dead
+
 
 def obligations(tier):
     w = "after run/call/evaluate returns or raises: sys.stdout, time.sleep, sys.modules keys as before; _current_patches == [] == _current_stdout"
